@@ -15,6 +15,7 @@ joined by `,`, the empty list is `-`.
 * `t2show a b`, `t3show a b c`, `lshow items`, `t2parse s`, `t3parse s`, `lparse s`, `t2rt a b`, `t3rt a b c`, `lrt items`.
 * `t2rt_t k a b`, `t3rt_t k a b c`, `lrt_t k items` — the same round trips; `k` names the component types the harness instantiates
   (the component texts are the `Display` texts of typed values).  `disperr e alt prec` — the `Err` side of the printable wrapper.
+* `seq <case> | <case> | …` — several of the above, executed back to back on one thread by the harness; `tally`.
 -/
 namespace Driver.C18
 open ArrModel ArrModel.C18 Driver
@@ -70,7 +71,7 @@ def showOptParts : Option (List Str) → String
 
 def idP : Str → Option Str := some
 
-def handle (op : String) (args : List String) : Option String :=
+def handle1 (op : String) (args : List String) : Option String :=
   match op, args with
   | "lit", [_, kind, ns, leaves, dbg] => do
     let ns ← parseNatList? ns; let leaves ← decList leaves; let dbg ← decHex dbg
@@ -134,6 +135,25 @@ def handle (op : String) (args : List String) : Option String :=
     let items ← decList items
     some (showOptParts (parseList idP (C18.showList id items)))
   | _, _ => none
+
+/-- the groups of a `seq` line: tokens between the separator token `|` -/
+def splitBar (l : List String) : List (List String) :=
+  l.foldr (fun t acc => if t == "|" then [] :: acc else
+    match acc with
+    | h :: r => (t :: h) :: r
+    | [] => [[t]]) [[]]
+
+/-- a single case, or `seq <case> | <case> | …` (the cases are executed back to back on one thread by the harness; the model has
+no state, so each is answered on its own, answers joined by ` ;; `), or `tally` (the harness reports its counters). -/
+def handle (op : String) (args : List String) : Option String :=
+  match op with
+  | "seq" => do
+    let rs ← (splitBar args).mapM (fun g => match g with
+      | o :: rest => handle1 o rest
+      | [] => none)
+    some (" ;; ".intercalate rs)
+  | "tally" => if args.isEmpty then some "ok tally" else none
+  | _ => handle1 op args
 
 end Driver.C18
 
